@@ -1,4 +1,5 @@
 import Iauthd.Proto.Holds
+import Iauthd.Proto.Hist
 /-
   Property C05 — "Verdict content is faithful to what the services said" (model part).
 -/
@@ -58,5 +59,73 @@ theorem C05_dronecheck_no_stamp (st : Static) (c : Ctx) (svc : Bytes) (cli : XqC
   unfold xqReply
   simp only [hx, hf, hok, hty]
   rfl
+
+
+set_option linter.unusedSimpArgs false in
+theorem b_OK' : b "OK" = [79, 75] := by decide
+set_option linter.unusedSimpArgs false in
+theorem b_OKsp' : b "OK " = [79, 75, 32] := by decide
+set_option linter.unusedSimpArgs false in
+/-- the Spec's reading of a reply text as "OK" and the daemon's agree -/
+theorem okStamp_isSome (rep : Bytes) :
+    (okStamp rep).isSome = (rep == b "OK" || Hist.startsWith (b "OK ") rep) := by
+  unfold okStamp Proto.startsWith Hist.startsWith
+  rw [b_OK', b_OKsp']
+  match rep with
+  | [] => rfl
+  | [a] => simp
+  | [a, c] =>
+    by_cases h : a = 79 ∧ c = 75
+    · obtain ⟨rfl, rfl⟩ := h; rfl
+    · have : ([a, c] == ([79, 75] : Bytes)) = false := by
+        simp only [beq_eq_false_iff_ne, ne_eq, List.cons.injEq, and_true]; exact h
+      simp [this, h]
+  | a :: c :: d :: rest =>
+    by_cases h : a = 79 ∧ c = 75
+    · obtain ⟨rfl, rfl⟩ := h
+      by_cases hd : d = 32
+      · subst hd; simp; split <;> rfl
+      · simp [hd]
+    · have h1 : ((a :: c :: d :: rest).take 2 == ([79, 75] : Bytes)) = false := by
+        simp only [List.take, beq_eq_false_iff_ne, ne_eq, List.cons.injEq, and_true]; exact h
+      have h2 : ((a :: c :: d :: rest).take 3 == ([79, 75, 32] : Bytes)) = false := by
+        simp only [List.take, beq_eq_false_iff_ne, ne_eq, List.cons.injEq, and_true]
+        intro hx; exact h ⟨hx.1, hx.2.1⟩
+      have h3 : ((a :: c :: d :: rest) == ([79, 75] : Bytes)) = false := by simp
+      simp [h1, h2, h3]
+      have hn : ¬((a = 79 ∧ c = 75) ∧ d = 32) := fun hx => h hx.1
+      rw [if_neg hn]
+      by_cases ha : a = 79
+      · by_cases hc : c = 75
+        · exact absurd ⟨ha, hc⟩ h
+        · simp [hc]
+      · simp [ha]
+
+/-- … so the trace judge (`replyKind`) and the daemon (`okStamp`) take the same replies for an OK -/
+theorem C05_ok_readers_agree (rep : Bytes) :
+    (match Hist.replyKind true rep with | .ok => true | .okAcct _ => true | _ => false) = (okStamp rep).isSome := by
+  rw [okStamp_isSome]
+  unfold Hist.replyKind
+  simp only [Bool.not_true, Bool.false_eq_true, if_false]
+  by_cases h1 : (rep == b "OK") = true
+  · simp [h1]
+  · have h1' : (rep == b "OK") = false := by simpa using h1
+    simp only [h1', Bool.false_eq_true, if_false, Bool.false_or]
+    by_cases h2 : Hist.startsWith (b "OK ") rep = true
+    · simp only [h2, if_true]
+      by_cases he : (((rep.drop 3).takeWhile (· != 32)).take 64).isEmpty = true
+      · simp only [he, if_true]
+      · simp only [he, if_false, Bool.false_eq_true]
+    · have h2' : Hist.startsWith (b "OK ") rep = false := by simpa using h2
+      simp only [h2', Bool.false_eq_true, if_false]
+      by_cases h3 : Hist.startsWith (b "NO ") rep = true
+      · simp only [h3, if_true]
+      · simp only [h3, if_false, Bool.false_eq_true]
+        by_cases h4 : Hist.startsWith (b "AGAIN ") rep = true
+        · simp only [h4, if_true]
+        · simp only [h4, if_false, Bool.false_eq_true]
+          by_cases h5 : Hist.startsWith (b "MORE ") rep = true
+          · simp only [h5, if_true]
+          · simp only [h5, if_false, Bool.false_eq_true]
 
 end Iauthd.Properties
